@@ -1,17 +1,816 @@
-//! module `image` — streams `image.*` (not built yet).
+//! module `image` (serves C09, and the image parts of C01, C02, C07) — raw images, sub-images and
+//! the `Image` wrapper.
+//!
+//! Streams (every result line is compared with the Lean model `EG.Model.ImageRaw`):
+//!   <img> = `<bits> <order 0|1> <w> <h> <bytes>`   order 0 = LittleEndianMsb0, 1 = BigEndianLsb0
+//!   <obj> = `<img> <ox> <oy> <mode> <nsub> [<ax> <ay> <aw> <ah>]*nsub`
+//!           mode 0: `Image::new(d, (ox,oy))`, mode 1: `Image::with_center(d, (ox,oy))`;
+//!           `d` = the raw image with `sub_image(area)` applied `nsub` times (0..=2)
+//!   image.new   <bits> <order> <w> <h> <len>   -> `ok` | `err:<expected_data_size>`
+//!   image.pixel <img>                          -> `pixel()` for y in -1..=h, x in -1..=w
+//!   image.draw  <obj> <bx> <by> <bw> <bh>      -> `bb=<rect> r1=<map> r2=<map> log1=<calls> log2=<calls>`
+//!        (R1 = draw_iter only, R2 = native fill that drains the colour iterator, both with
+//!         bounding box `<bx,by,bw,bh>`; log1 / log2 = their call logs incl. every colour pulled)
+//!   image.move  <obj> <dx> <dy>                -> `bb=<rect> mut=<1|0> r1=<map>` of `.translate((dx,dy))`
+//!        on an unbounded R1; `mut` = `translate_mut` left the same value as `translate` returned
+//!   (`err:<expected>` when `ImageRaw::new` rejects the buffer)
+//!   image.wide  <bits> <order> <w> <h>         -> `p00=<v|none>`: `pixel((0,0))` of a zero filled image
+//!        of a size beyond i32::MAX (replay only, never generated; the model driver skips it: the
+//!        buffer has >= 2^28 bytes. Lean side: `pixel_none_inside_when_width_wraps`)
+//!
+//! The generic `ImageRaw<C, O>` is instantiated for the 7 raw widths (BinaryColor, Gray2, Gray4,
+//! Gray8, Rgb565, Rgb888 and the local `C32` with `Raw = RawU32`) x 2 data orders; colours are
+//! printed as raw numbers.
+//!
+//! Oracle = the property text as predicates against an independent reference (`ref_pixel`: the
+//! documented layout with explicit bit arithmetic, rows padded to whole bytes; `ref_clip`: the
+//! intersection of an area with a box by interval arithmetic). Lean statements mirrored:
+//!   C09: `new_ok_iff`, `pixel_none_iff`, `pixel_eq_load`/`pixel_row_aligned`, `draw_stream`,
+//!        `draw_exact`, `sub_area_eq`, `sub_stream`, `sub_image_eq_cropped_image`,
+//!        `nested_sub_image`, `with_center`
+//!   C01: `image_default_eq_native`   C02: `image_draw_in_bbox`   C07: `image_translate`
 use crate::common::*;
+use embedded_graphics::{
+    image::{GetPixel, Image, ImageDrawable, ImageDrawableExt, ImageRaw, ImageRawError},
+    iterator::raw::RawDataSlice,
+    pixelcolor::{raw::*, *},
+    prelude::*,
+    primitives::Rectangle,
+};
 
 pub struct M;
+
+const DEPTHS: [u32; 7] = [1, 2, 4, 8, 16, 24, 32];
+
+/// colour type with `Raw = RawU32` (no built-in colour type has it)
+#[derive(Copy, Clone, PartialEq, Eq, Debug)]
+pub struct C32(RawU32);
+impl PixelColor for C32 {
+    type Raw = RawU32;
+}
+impl From<RawU32> for C32 {
+    fn from(r: RawU32) -> Self {
+        C32(r)
+    }
+}
+impl From<C32> for RawU32 {
+    fn from(c: C32) -> Self {
+        c.0
+    }
+}
+impl ColNum for C32 {
+    fn num(&self) -> u32 {
+        self.0.into_inner()
+    }
+    fn from_num(n: u32) -> Self {
+        C32(RawU32::new(n))
+    }
+}
+
+macro_rules! dispatch {
+    ($bits:expr, $ord:expr, $f:ident ( $($a:expr),* )) => {
+        match ($bits, $ord) {
+            (1, 0) => $f::<BinaryColor, LittleEndianMsb0>($($a),*),
+            (1, _) => $f::<BinaryColor, BigEndianLsb0>($($a),*),
+            (2, 0) => $f::<Gray2, LittleEndianMsb0>($($a),*),
+            (2, _) => $f::<Gray2, BigEndianLsb0>($($a),*),
+            (4, 0) => $f::<Gray4, LittleEndianMsb0>($($a),*),
+            (4, _) => $f::<Gray4, BigEndianLsb0>($($a),*),
+            (8, 0) => $f::<Gray8, LittleEndianMsb0>($($a),*),
+            (8, _) => $f::<Gray8, BigEndianLsb0>($($a),*),
+            (16, 0) => $f::<Rgb565, LittleEndianMsb0>($($a),*),
+            (16, _) => $f::<Rgb565, BigEndianLsb0>($($a),*),
+            (24, 0) => $f::<Rgb888, LittleEndianMsb0>($($a),*),
+            (24, _) => $f::<Rgb888, BigEndianLsb0>($($a),*),
+            (32, 0) => $f::<C32, LittleEndianMsb0>($($a),*),
+            (32, _) => $f::<C32, BigEndianLsb0>($($a),*),
+            _ => panic!("bad depth"),
+        }
+    };
+}
+
+struct Obj {
+    off: Point,
+    mode: u32,
+    subs: Vec<Rectangle>,
+}
+
+struct DrawOut {
+    bb: Rectangle,
+    r1: Rec,
+    r2: Rec,
+}
+struct MoveOut {
+    bb0: Rectangle,
+    bb: Rectangle,
+    same_as_mut: bool,
+    map0: PMap,
+    map: PMap,
+}
+
+fn expected_of(e: ImageRawError) -> usize {
+    match e {
+        ImageRawError::InvalidDataSize { expected_data_size } => expected_data_size,
+    }
+}
+
+fn real_new<C, O>(len: usize, size: Size) -> Result<(), usize>
+where
+    C: ColNum,
+    O: DataOrder,
+{
+    let data = vec![0u8; len];
+    ImageRaw::<C, O>::new(&data, size).map(|_| ()).map_err(expected_of)
+}
+
+fn real_pixels<C, O>(bytes: &[u8], size: Size) -> Result<Vec<Option<u32>>, usize>
+where
+    C: ColNum,
+    O: DataOrder,
+    for<'a> RawDataSlice<'a, C::Raw, O>: IntoIterator<Item = C::Raw>,
+{
+    let raw = ImageRaw::<C, O>::new(bytes, size).map_err(expected_of)?;
+    let mut v = Vec::new();
+    for y in -1..=size.height as i32 {
+        for x in -1..=size.width as i32 {
+            v.push(raw.pixel(Point::new(x, y)).map(|c| c.num()));
+        }
+    }
+    Ok(v)
+}
+
+fn real_wide<C, O>(size: Size) -> Result<Option<u32>, usize>
+where
+    C: ColNum,
+    O: DataOrder,
+    for<'a> RawDataSlice<'a, C::Raw, O>: IntoIterator<Item = C::Raw>,
+{
+    let len = ref_bpr(C::Raw::BITS_PER_PIXEL as u32, size.width) * size.height as usize;
+    let data = vec![0u8; len]; // zeroed allocation: pages are never touched
+    let raw = ImageRaw::<C, O>::new(&data, size).map_err(expected_of)?;
+    Ok(raw.pixel(Point::new(0, 0)).map(|c| c.num()))
+}
+
+fn make_image<'a, T: ImageDrawable>(d: &'a T, obj: &Obj) -> Image<'a, T> {
+    if obj.mode == 0 {
+        Image::new(d, obj.off)
+    } else {
+        Image::with_center(d, obj.off)
+    }
+}
+
+fn draw_on<T>(d: &T, obj: &Obj, bbox: Rectangle) -> DrawOut
+where
+    T: ImageDrawable,
+    T::Color: ColNum,
+{
+    let img = make_image(d, obj);
+    let mut r1 = R1::<T::Color>::new(bbox);
+    let mut r2 = R2::<T::Color>::new(bbox);
+    img.draw(&mut r1).unwrap();
+    img.draw(&mut r2).unwrap();
+    DrawOut { bb: img.bounding_box(), r1: r1.rec, r2: r2.rec }
+}
+
+fn move_on<T>(d: &T, obj: &Obj, by: Point) -> MoveOut
+where
+    T: ImageDrawable + PartialEq,
+    T::Color: ColNum,
+{
+    let img = make_image(d, obj);
+    let moved = img.translate(by);
+    let mut m = make_image(d, obj);
+    m.translate_mut(by);
+    let mut t0 = R1::<T::Color>::unbounded();
+    let mut t1 = R1::<T::Color>::unbounded();
+    img.draw(&mut t0).unwrap();
+    moved.draw(&mut t1).unwrap();
+    MoveOut { bb0: img.bounding_box(), bb: moved.bounding_box(), same_as_mut: m == moved, map0: t0.rec.map, map: t1.rec.map }
+}
+
+macro_rules! with_drawable {
+    ($raw:expr, $obj:expr, $f:ident ( $($a:expr),* )) => {
+        match $obj.subs.len() {
+            0 => $f(&$raw, $obj, $($a),*),
+            1 => {
+                let s1 = $raw.sub_image(&$obj.subs[0]);
+                $f(&s1, $obj, $($a),*)
+            }
+            _ => {
+                let s1 = $raw.sub_image(&$obj.subs[0]);
+                let s2 = s1.sub_image(&$obj.subs[1]);
+                $f(&s2, $obj, $($a),*)
+            }
+        }
+    };
+}
+
+fn real_draw<C, O>(bytes: &[u8], size: Size, obj: &Obj, bbox: Rectangle) -> Result<DrawOut, usize>
+where
+    C: ColNum,
+    O: DataOrder + PartialEq,
+    for<'a> RawDataSlice<'a, C::Raw, O>: IntoIterator<Item = C::Raw>,
+{
+    let raw = ImageRaw::<C, O>::new(bytes, size).map_err(expected_of)?;
+    Ok(with_drawable!(raw, obj, draw_on(bbox)))
+}
+
+fn real_move<C, O>(bytes: &[u8], size: Size, obj: &Obj, by: Point) -> Result<MoveOut, usize>
+where
+    C: ColNum,
+    O: DataOrder + PartialEq,
+    for<'a> RawDataSlice<'a, C::Raw, O>: IntoIterator<Item = C::Raw>,
+{
+    let raw = ImageRaw::<C, O>::new(bytes, size).map_err(expected_of)?;
+    Ok(with_drawable!(raw, obj, move_on(by)))
+}
+
+// ---------------------------------------------------------------------------------------------
+// Independent reference.
+// ---------------------------------------------------------------------------------------------
+
+/// bytes per row: the least number of whole bytes that hold `w` pixels of `bits` bits
+fn ref_bpr(bits: u32, w: u32) -> usize {
+    let total = w as usize * bits as usize;
+    total / 8 + if total % 8 != 0 { 1 } else { 0 }
+}
+
+/// pixel `(x, y)` of an image whose rows start on byte boundaries. LittleEndianMsb0: multi-byte
+/// pixels least significant byte first, sub-byte pixels from the most significant bits down;
+/// BigEndianLsb0: most significant byte first, sub-byte pixels from the least significant bits up.
+fn ref_pixel(bits: u32, order: u32, w: u32, h: u32, bytes: &[u8], x: i32, y: i32) -> Option<u32> {
+    if x < 0 || y < 0 || x as i64 >= w as i64 || y as i64 >= h as i64 {
+        return None;
+    }
+    let row = &bytes[y as usize * ref_bpr(bits, w)..];
+    let x = x as usize;
+    if bits < 8 {
+        let ppb = (8 / bits) as usize;
+        let slot = (x % ppb) as u32;
+        let shift = if order == 0 { 8 - bits * (slot + 1) } else { bits * slot };
+        Some(((row[x / ppb] >> shift) as u32) & ((1 << bits) - 1))
+    } else {
+        let n = (bits / 8) as usize;
+        let mut v: u32 = 0;
+        for j in 0..n {
+            let b = row[x * n + j] as u32;
+            v |= if order == 0 { b << (8 * j as u32) } else { b << (8 * (n - 1 - j) as u32) };
+        }
+        Some(v)
+    }
+}
+
+/// `area` clipped to `0..w x 0..h` by interval arithmetic: `Some((x0, y0, cw, ch))` with `cw, ch > 0`
+/// when there is a common point, `None` otherwise.
+fn ref_clip(w: u32, h: u32, a: &Rectangle) -> Option<(i64, i64, i64, i64)> {
+    let x0 = (a.top_left.x as i64).max(0);
+    let y0 = (a.top_left.y as i64).max(0);
+    let x1 = (a.top_left.x as i64 + a.size.width as i64).min(w as i64);
+    let y1 = (a.top_left.y as i64 + a.size.height as i64).min(h as i64);
+    if x1 > x0 && y1 > y0 {
+        Some((x0, y0, x1 - x0, y1 - y0))
+    } else {
+        None
+    }
+}
+
+/// The region of the root image an object shows: `(origin x, origin y, width, height)` in root
+/// coordinates, `None` when it is empty (sub-image chain: each area is clipped to its parent's box
+/// and re-based to the parent's origin).
+fn ref_region(w: u32, h: u32, subs: &[Rectangle]) -> Option<(i64, i64, i64, i64)> {
+    let mut reg = (0i64, 0i64, w as i64, h as i64);
+    for a in subs {
+        let (x, y, cw, ch) = ref_clip(reg.2 as u32, reg.3 as u32, a)?;
+        reg = (reg.0 + x, reg.1 + y, cw, ch);
+    }
+    if subs.is_empty() || (reg.2 > 0 && reg.3 > 0) {
+        Some(reg)
+    } else {
+        None
+    }
+}
+
+fn fmt_opt(v: Option<u32>) -> String {
+    match v {
+        Some(v) => v.to_string(),
+        None => "none".into(),
+    }
+}
+
+fn pattern(pat: u32, len: usize, rng: &mut Rng) -> Vec<u8> {
+    (0..len)
+        .map(|j| match pat {
+            0 => 0x00,
+            1 => 0xFF,
+            2 => ((j as u32 * 0x3B + 0xA5) ^ (j as u32 * j as u32 * 7)) as u8,
+            3 => (0x1B_u32.wrapping_mul(j as u32 + 1) ^ (j as u32 >> 1) ^ 0xC6) as u8,
+            _ => rng.next() as u8,
+        })
+        .collect()
+}
+
+const OFFSETS: [(i32, i32); 6] = [(0, 0), (-2, 3), (5, -1), (-4, -3), (1, 1), (3, 7)];
+const MOVES: [(i32, i32); 6] = [(1, 0), (0, -1), (-7, 4), (3, 5), (-2, -9), (0, 0)];
+
+/// target boxes: 0 = unbounded-ish, 1 = one that clips
+fn target_box(k: u32) -> Rectangle {
+    if k == 0 {
+        Rectangle::new(Point::new(-64, -64), Size::new(128, 128))
+    } else {
+        Rectangle::new(Point::new(-1, 1), Size::new(5, 4))
+    }
+}
+
+/// sub-image areas relative to a `w x h` parent: inside, overlapping, outside, zero sized
+fn areas_for(w: i32, h: i32) -> Vec<(i32, i32, u32, u32)> {
+    let u = |v: i32| v.max(0) as u32;
+    vec![
+        // inside
+        (0, 0, u(w), u(h)),
+        (1, 1, u(w - 2), u(h - 2)),
+        (1, 0, 2, 1),
+        (w - 1, h - 1, 1, 1),
+        (0, 1, u(w), 1),
+        (1, 0, 1, u(h)),
+        (2, 1, 3, 2),
+        (0, 0, 1, 1),
+        (w - 1, 0, 1, u(h)),
+        (0, h - 1, u(w), 1),
+        // overlapping
+        (-1, -1, 3, 3),
+        (w - 2, h - 2, 4, 4),
+        (-2, 1, u(w + 4), 1),
+        (1, -3, 2, u(h + 6)),
+        (-5, -5, u(w + 10), u(h + 10)),
+        // outside
+        (w, 0, 2, 2),
+        (0, h, 2, 2),
+        (-3, -3, 2, 2),
+        (w + 1, h + 1, 1, 1),
+        // zero sized
+        (1, 1, 0, 2),
+        (0, 0, 0, 0),
+        (1, 1, 2, 0),
+        (w + 2, 1, 0, 3),
+    ]
+}
+
+/// pairs for nested sub-images (second area is relative to the first sub-image)
+fn nested_for(w: i32, h: i32) -> Vec<((i32, i32, u32, u32), (i32, i32, u32, u32))> {
+    let u = |v: i32| v.max(0) as u32;
+    vec![
+        ((1, 1, u(w - 1), u(h - 1)), (1, 0, 2, 2)),
+        ((1, 0, u(w - 2), u(h)), (0, 1, u(w - 2), 1)),
+        ((-1, -1, u(w), u(h)), (1, 1, 4, 4)),
+        ((2, 1, 4, 3), (-1, -1, 3, 3)),
+        ((0, 0, u(w), u(h)), (w - 1, h - 1, 3, 3)),
+        ((1, 1, 3, 2), (3, 0, 2, 2)),
+        ((1, 1, 3, 2), (1, 1, 0, 1)),
+        ((w, 0, 2, 2), (0, 0, 1, 1)),
+        ((1, 1, 0, 2), (0, 0, 1, 1)),
+        ((2, 0, u(w - 3), u(h)), (1, 1, u(w - 4), u(h - 1))),
+        ((0, 0, u(w), u(h)), (0, 0, u(w), u(h))),
+        ((1, 0, u(w - 1), u(h)), (0, 0, u(w - 1), u(h))),
+        ((0, 1, u(w), u(h - 1)), (1, 0, u(w - 1), u(h - 1))),
+        ((0, 0, u(w - 1), u(h - 1)), (w - 2, h - 2, 1, 1)),
+        ((1, 1, u(w - 1), u(h - 1)), (0, 0, 1, u(h - 1))),
+    ]
+}
+
+fn area_toks(a: &(i32, i32, u32, u32)) -> String {
+    format!("{} {} {} {}", a.0, a.1, a.2, a.3)
+}
+
+struct Gen<'a> {
+    emit: &'a mut dyn FnMut(String),
+    k: u32,
+}
+impl Gen<'_> {
+    fn img(bits: u32, order: u32, w: u32, h: u32, bytes: &[u8]) -> String {
+        format!("{} {} {} {} {}", bits, order, w, h, fmt_list(bytes.iter()))
+    }
+    fn draw(&mut self, img: &str, off: (i32, i32), mode: u32, subs: &[(i32, i32, u32, u32)], bx: u32) {
+        let mut s = format!("image.draw {} {} {} {} {}", img, off.0, off.1, mode, subs.len());
+        for a in subs {
+            s.push(' ');
+            s.push_str(&area_toks(a));
+        }
+        s.push(' ');
+        s.push_str(&rect_toks(&target_box(bx)));
+        (self.emit)(s);
+        self.k += 1;
+    }
+    fn mv(&mut self, img: &str, off: (i32, i32), mode: u32, subs: &[(i32, i32, u32, u32)], d: (i32, i32)) {
+        let mut s = format!("image.move {} {} {} {} {}", img, off.0, off.1, mode, subs.len());
+        for a in subs {
+            s.push(' ');
+            s.push_str(&area_toks(a));
+        }
+        s.push_str(&format!(" {} {}", d.0, d.1));
+        (self.emit)(s);
+        self.k += 1;
+    }
+}
 
 impl Module for M {
     fn name(&self) -> &'static str {
         "image"
     }
     fn rule(&self) -> &'static str {
-        "not built yet"
+        "ops: 7 raw widths (1,2,4,8,16,24,32 bit) x 2 data orders x every image size 0..=9 x 0..=4 (quick; 0..=20 x 0..=8 \
+         thorough) x byte patterns (zeros, ones, two position dependent formulas, seeded random) x draw offsets incl. \
+         negative x Image::new / with_center x sub-image areas (inside, overlapping, outside, zero sized; 23 per size) and \
+         nested pairs (15 per size) x 2 target boxes (one clipping) on R1 (draw_iter only) and R2 (native fill draining the \
+         colour iterator); ImageRaw::new with lengths expected-1, expected, expected+1, 0; pixel() over the box + 1 px margin; \
+         then seeded random images / areas / offsets. A draw or move op is non-trivial when the shown region is non-empty; \
+         a pixel op when the image is non-empty; a new op when the expected length is non-zero. distinct = distinct op text."
     }
-    fn generate(&self, _pid: &str, _tier: Tier, _rng: &mut Rng, _emit: &mut dyn FnMut(String)) {}
-    fn execute(&self, op: &str, _ctx: &mut Ctx) -> String {
-        panic!("unknown op {}", op)
+
+    fn generate(&self, pid: &str, tier: Tier, rng: &mut Rng, emit: &mut dyn FnMut(String)) {
+        let quick = tier == Tier::Quick;
+        let (max_w, max_h) = if quick { (9u32, 4u32) } else { (20u32, 8u32) };
+        let mut g = Gen { emit, k: 0 };
+        let c09 = pid == "C09";
+        let c07 = pid == "C07";
+        // the cross-cutting checks use a thinner slice of the same scope
+        let thin = !c09;
+        for &bits in &DEPTHS {
+            for order in 0..2u32 {
+                for h in 0..=max_h {
+                    for w in 0..=max_w {
+                        if thin && quick && (w > 6 || h > 3) {
+                            continue;
+                        }
+                        if thin && !quick && (w > 12 || h > 5) {
+                            continue;
+                        }
+                        let len = ref_bpr(bits, w) * h as usize;
+                        if c09 {
+                            let mut lens = vec![len, len + 1, 0];
+                            if len > 0 {
+                                lens.push(len - 1);
+                            }
+                            // unpadded length (what a packed layout would need)
+                            lens.push((w as usize * h as usize * bits as usize + 7) / 8);
+                            lens.sort();
+                            lens.dedup();
+                            for l in lens {
+                                (g.emit)(format!("image.new {} {} {} {} {}", bits, order, w, h, l));
+                            }
+                            for pat in 0..5 {
+                                let bytes = pattern(pat, len, rng);
+                                (g.emit)(format!("image.pixel {}", Gen::img(bits, order, w, h, &bytes)));
+                            }
+                            // a buffer of the wrong length
+                            let bytes = pattern(2, len + 1, rng);
+                            (g.emit)(format!("image.pixel {}", Gen::img(bits, order, w, h, &bytes)));
+                        }
+                        let (wi, hi) = (w as i32, h as i32);
+                        if !c07 {
+                            // full image
+                            for pat in 0..5u32 {
+                                if thin && pat != 2 && pat != 4 {
+                                    continue;
+                                }
+                                let bytes = pattern(pat, len, rng);
+                                let img = Gen::img(bits, order, w, h, &bytes);
+                                let off = OFFSETS[((pat + w + h) % 6) as usize];
+                                g.draw(&img, off, if pat == 3 { 1 } else { 0 }, &[], pat % 2);
+                                if pat == 2 {
+                                    g.draw(&img, OFFSETS[((w + 2 * h) % 6) as usize], 1, &[], 1);
+                                }
+                            }
+                            // sub-images
+                            for (i, a) in areas_for(wi, hi).iter().enumerate() {
+                                if thin && (i as u32 + w + h) % 3 != 0 {
+                                    continue;
+                                }
+                                let pat = 2 + (g.k % 3);
+                                let bytes = pattern(pat, len, rng);
+                                let img = Gen::img(bits, order, w, h, &bytes);
+                                let off = OFFSETS[((g.k / 3) % 6) as usize];
+                                let mode = if g.k % 5 == 4 { 1 } else { 0 };
+                                let bx = (g.k / 2) % 2;
+                                g.draw(&img, off, mode, &[*a], bx);
+                            }
+                            for (i, (a, b)) in nested_for(wi, hi).iter().enumerate() {
+                                if thin && (i as u32 + w + h) % 3 != 0 {
+                                    continue;
+                                }
+                                let pat = 2 + (g.k % 3);
+                                let bytes = pattern(pat, len, rng);
+                                let img = Gen::img(bits, order, w, h, &bytes);
+                                let off = OFFSETS[((g.k / 3) % 6) as usize];
+                                let mode = if g.k % 7 == 6 { 1 } else { 0 };
+                                let bx = (g.k / 2) % 2;
+                                g.draw(&img, off, mode, &[*a, *b], bx);
+                            }
+                        }
+                        if c09 || c07 {
+                            let n = if c07 { 3 } else { 1 };
+                            for j in 0..n {
+                                let bytes = pattern(2 + j, len, rng);
+                                let img = Gen::img(bits, order, w, h, &bytes);
+                                let off = OFFSETS[((g.k / 2) % 6) as usize];
+                                let d = MOVES[(g.k % 6) as usize];
+                                match (g.k + j) % 3 {
+                                    0 => g.mv(&img, off, j % 2, &[], d),
+                                    1 => {
+                                        let a = areas_for(wi, hi)[(g.k % 12) as usize];
+                                        g.mv(&img, off, 0, &[a], d)
+                                    }
+                                    _ => {
+                                        let (a, b) = nested_for(wi, hi)[(g.k % 6) as usize];
+                                        g.mv(&img, off, j % 2, &[a, b], d)
+                                    }
+                                }
+                            }
+                        }
+                    }
+                }
+            }
+        }
+        // seeded random cases (larger sizes, random content / areas / offsets / target boxes)
+        let n_rand = match (quick, thin) {
+            (true, false) => 1500,
+            (true, true) => 400,
+            (false, false) => 20_000,
+            (false, true) => 4_000,
+        };
+        let (rw, rh) = if quick { (12, 6) } else { (24, 10) };
+        for _ in 0..n_rand {
+            let bits = *rng.pick(&DEPTHS);
+            let order = rng.below(2) as u32;
+            let w = rng.range(0, rw) as u32;
+            let h = rng.range(0, rh) as u32;
+            let len = ref_bpr(bits, w) * h as usize;
+            let bytes = pattern(4, len, rng);
+            let img = Gen::img(bits, order, w, h, &bytes);
+            let off = (rng.range(-20, 20) as i32, rng.range(-20, 20) as i32);
+            let nsub = rng.below(3) as usize;
+            let mut subs = Vec::new();
+            let (mut pw, mut ph) = (w as i64, h as i64);
+            for _ in 0..nsub {
+                let a = (
+                    rng.range(-2, pw + 1) as i32,
+                    rng.range(-2, ph + 1) as i32,
+                    rng.range(0, pw + 3) as u32,
+                    rng.range(0, ph + 3) as u32,
+                );
+                subs.push(a);
+                // size of the parent for the next level (approximately: clipped size)
+                pw = (a.2 as i64).min(pw);
+                ph = (a.3 as i64).min(ph);
+            }
+            let mode = if rng.chance(1, 4) { 1 } else { 0 };
+            if c07 || (c09 && rng.chance(1, 8)) {
+                let d = (rng.range(-30, 30) as i32, rng.range(-30, 30) as i32);
+                g.mv(&img, off, mode, &subs, d);
+            } else {
+                let bx = if rng.chance(1, 2) {
+                    target_box(0)
+                } else {
+                    Rectangle::new(
+                        Point::new(off.0 + rng.range(-3, 3) as i32, off.1 + rng.range(-3, 3) as i32),
+                        Size::new(rng.range(0, rw + 2) as u32, rng.range(0, rh + 2) as u32),
+                    )
+                };
+                let mut s = format!("image.draw {} {} {} {} {}", img, off.0, off.1, mode, subs.len());
+                for a in &subs {
+                    s.push(' ');
+                    s.push_str(&area_toks(a));
+                }
+                s.push(' ');
+                s.push_str(&rect_toks(&bx));
+                (g.emit)(s);
+            }
+        }
+    }
+
+    fn execute(&self, op: &str, ctx: &mut Ctx) -> String {
+        let mut t = Toks::new(op);
+        let stream = t.str();
+        let bits = t.u32();
+        let order = t.u32();
+        let size = t.size();
+        let (w, h) = (size.width, size.height);
+        let expected = ref_bpr(bits, w) * h as usize;
+        ctx.count(&format!("{}:bits={}:order={}", stream, bits, order));
+        if stream == "image.new" {
+            let len = t.usize();
+            let got = dispatch!(bits, order, real_new(len, size));
+            // new_ok_iff: accepts exactly buffers of `bytes per row (rows padded to whole bytes) * height` bytes
+            ctx.expect(got.is_ok() == (len == expected), "C09:new-accepts-exactly", || format!("{} got {:?} expected {}", op, got, expected));
+            if let Err(e) = got {
+                ctx.expect(e == expected, "C09:new-error-expected-size", || format!("{} reports {} want {}", op, e, expected));
+            }
+            ctx.count(if len == expected { "new:len=expected" } else if len < expected { "new:len<expected" } else { "new:len>expected" });
+            if expected > 0 {
+                ctx.nontrivial(op);
+            }
+            return match got {
+                Ok(()) => "ok".into(),
+                Err(e) => format!("err:{}", e),
+            };
+        }
+        if stream == "image.wide" {
+            let got = dispatch!(bits, order, real_wide(size));
+            let got = match got {
+                Err(e) => return format!("err:{}", e),
+                Ok(g) => g,
+            };
+            // pixel_none_iff at the point the theorem excludes (`width, height <= i32::MAX`)
+            ctx.expect(got.is_some() == (w > 0 && h > 0), "C09:pixel-none-inside-box:size-exceeds-i32", || {
+                format!("{} pixel((0,0)) = {:?} although (0,0) is inside the bounding box", op, got)
+            });
+            return format!("p00={}", fmt_opt(got));
+        }
+        let bytes: Vec<u8> = t.u32_list().into_iter().map(|b| b as u8).collect();
+        if bits < 8 && w % (8 / bits) != 0 {
+            ctx.count("width:not-multiple-of-pixels-per-byte");
+        } else {
+            ctx.count("width:multiple-of-pixels-per-byte");
+        }
+        match stream {
+            "image.pixel" => {
+                let got = dispatch!(bits, order, real_pixels(&bytes, size));
+                ctx.expect(got.is_ok() == (bytes.len() == expected), "C09:new-accepts-exactly", || format!("{} expected {}", op, expected));
+                let px = match got {
+                    Err(e) => return format!("err:{}", e),
+                    Ok(px) => px,
+                };
+                let mut i = 0;
+                let mut none_ok = true;
+                let mut val_ok = true;
+                for y in -1..=h as i32 {
+                    for x in -1..=w as i32 {
+                        let inside = x >= 0 && y >= 0 && (x as u32) < w && (y as u32) < h;
+                        // pixel_none_iff: `None` exactly outside the bounding box
+                        none_ok &= px[i].is_none() == !inside;
+                        // pixel_eq_load / row padding: the documented layout, rows on byte boundaries
+                        val_ok &= px[i] == ref_pixel(bits, order, w, h, &bytes, x, y);
+                        i += 1;
+                    }
+                }
+                ctx.expect(none_ok, "C09:pixel-none-iff-outside", || format!("{} got {:?}", op, px));
+                ctx.expect(val_ok, "C09:pixel-value", || format!("{} got {:?}", op, px));
+                if w > 0 && h > 0 {
+                    ctx.nontrivial(op);
+                }
+                fmt_list(px.iter().map(|p| fmt_opt(*p)))
+            }
+            "image.draw" | "image.move" => {
+                let off = t.point();
+                let mode = t.u32();
+                let nsub = t.usize();
+                let subs: Vec<Rectangle> = (0..nsub).map(|_| t.rect()).collect();
+                let obj = Obj { off, mode, subs };
+                ctx.count(&format!("obj:nsub={}:mode={}", nsub, mode));
+                if bytes.len() != expected {
+                    // not generated; keep the protocol total
+                    let e = dispatch!(bits, order, real_new(bytes.len(), size)).err().unwrap_or(0);
+                    return format!("err:{}", e);
+                }
+                let region = ref_region(w, h, &obj.subs);
+                // classify the areas for the input distribution
+                {
+                    let (mut pw, mut ph) = (w, h);
+                    for (lvl, a) in obj.subs.iter().enumerate() {
+                        let kind = match ref_clip(pw, ph, a) {
+                            _ if a.size.width == 0 || a.size.height == 0 => "zero",
+                            None => "outside",
+                            Some((x, y, cw, ch)) => {
+                                if (x, y) == (a.top_left.x as i64, a.top_left.y as i64) && cw == a.size.width as i64 && ch == a.size.height as i64 {
+                                    "inside"
+                                } else {
+                                    "overlapping"
+                                }
+                            }
+                        };
+                        ctx.count(&format!("area:level{}:{}", lvl + 1, kind));
+                        match ref_clip(pw, ph, a) {
+                            Some((_, _, cw, ch)) => {
+                                pw = cw as u32;
+                                ph = ch as u32;
+                            }
+                            None => {
+                                pw = 0;
+                                ph = 0;
+                            }
+                        }
+                    }
+                }
+                if let Some((_, _, rw, rh)) = region {
+                    if rw > 0 && rh > 0 {
+                        ctx.nontrivial(op);
+                    }
+                }
+                // the expected offset: `Image::new` = the given point; `with_center`: the shown region is
+                // centred on the given point (extra pixel of even sizes right / below)
+                let exp_off = |sz: (i64, i64)| -> (i64, i64) {
+                    if obj.mode == 0 {
+                        (off.x as i64, off.y as i64)
+                    } else {
+                        (off.x as i64 - (sz.0 - 1).max(0) / 2, off.y as i64 - (sz.1 - 1).max(0) / 2)
+                    }
+                };
+                if stream == "image.draw" {
+                    let bbox = t.rect();
+                    ctx.count(if bbox == target_box(0) { "target:wide" } else { "target:clipping" });
+                    let out = dispatch!(bits, order, real_draw(&bytes, size, &obj, bbox)).expect("length checked");
+                    // expected picture: region pixel p at target point o + p, nothing else
+                    let mut want = PMap::new();
+                    let mut want_stream: Vec<u32> = Vec::new();
+                    if let Some((rx, ry, rw, rh)) = region {
+                        let o = exp_off((rw, rh));
+                        for py in 0..rh {
+                            for px in 0..rw {
+                                let c = ref_pixel(bits, order, w, h, &bytes, (rx + px) as i32, (ry + py) as i32).expect("region inside the root image");
+                                want_stream.push(c);
+                                let q = Point::new((o.0 + px) as i32, (o.1 + py) as i32);
+                                if bbox.contains(q) {
+                                    want.insert((q.y, q.x), c);
+                                }
+                            }
+                        }
+                        // sub_area_eq / with_center: the bounding box is the shown region placed at the offset
+                        let want_bb = Rectangle::new(Point::new(o.0 as i32, o.1 as i32), Size::new(rw as u32, rh as u32));
+                        if rw > 0 && rh > 0 {
+                            ctx.expect(out.bb == want_bb, if obj.mode == 0 { "C09:bounding-box" } else { "C09:with-center" }, || {
+                                format!("{} bb {:?} want {:?}", op, out.bb, want_bb)
+                            });
+                        }
+                    } else {
+                        ctx.expect(out.bb.is_zero_sized(), "C09:bounding-box", || format!("{} bb {:?} want zero sized", op, out.bb));
+                    }
+                    // draw_exact / sub_image_eq_cropped_image (both target implementations)
+                    ctx.expect(out.r1.map == want, "C09:draw-exact-default-target", || format!("{} got {} want {}", op, out.r1.fmt_map(), fmt_map(&want)));
+                    ctx.expect(out.r2.map == want, "C09:draw-exact-native-target", || format!("{} got {} want {}", op, out.r2.fmt_map(), fmt_map(&want)));
+                    // draw_stream / sub_stream: one fill_contiguous with exactly width x height colours,
+                    // the region's pixels row-major (R2 drains the iterator and records everything)
+                    let mut pulled: Vec<u32> = Vec::new();
+                    let mut fc = 0;
+                    for c in &out.r2.log {
+                        match c {
+                            Call::FillContiguous(a, cs) => {
+                                fc += 1;
+                                pulled.extend(cs.iter());
+                                let n = a.size.width as usize * a.size.height as usize;
+                                let surplus_is_next_row = cs.len() > n && cs.len() <= n + a.size.width as usize;
+                                ctx.expect(cs.len() == n, if surplus_is_next_row { "C09:stream-one-row-too-long" } else { "C09:stream-length" }, || {
+                                    format!("{} area {} pulled {} colours want {}", op, fmt_rect(a), cs.len(), n)
+                                });
+                                ctx.expect(*a == out.bb, "C09:fill-area-is-bounding-box", || format!("{} area {} bb {}", op, fmt_rect(a), fmt_rect(&out.bb)));
+                            }
+                            _ => ctx.expect(false, "C09:unexpected-call", || format!("{} {}", op, c.fmt())),
+                        }
+                    }
+                    ctx.expect(fc <= 1, "C09:unexpected-call", || format!("{} {} fill_contiguous calls", op, fc));
+                    let prefix_ok = pulled.len() >= want_stream.len() && pulled[..want_stream.len()] == want_stream[..];
+                    ctx.expect(prefix_ok, "C09:stream-colours", || format!("{} pulled {:?} want {:?}", op, pulled, want_stream));
+                    if fc == 1 {
+                        ctx.count("draw:fill_contiguous");
+                    } else {
+                        ctx.count("draw:nothing");
+                    }
+                    // C01: the same picture on the draw_iter-only target and on the native target
+                    ctx.expect(out.r1.map == out.r2.map, "C01:image-default-vs-native", || format!("{} r1 {} r2 {}", op, out.r1.fmt_map(), out.r2.fmt_map()));
+                    // C02: every pixel offered to the target (before clipping) lies inside bounding_box()
+                    let mut inside = true;
+                    for c in &out.r1.log {
+                        if let Call::DrawIter(px) = c {
+                            inside &= px.iter().all(|((x, y), _)| out.bb.contains(Point::new(*x, *y)));
+                        }
+                    }
+                    for c in &out.r2.log {
+                        if let Call::FillContiguous(a, _) = c {
+                            inside &= a.points().all(|p| out.bb.contains(p));
+                        }
+                    }
+                    ctx.expect(inside, "C02:image-outside-bounding-box", || format!("{} bb {} log {}", op, fmt_rect(&out.bb), out.r1.fmt_log()));
+                    format!(
+                        "bb={} r1={} r2={} log1={} log2={}",
+                        fmt_rect(&out.bb),
+                        out.r1.fmt_map(),
+                        out.r2.fmt_map(),
+                        out.r1.fmt_log(),
+                        out.r2.fmt_log()
+                    )
+                } else {
+                    let d = t.point();
+                    let out = dispatch!(bits, order, real_move(&bytes, size, &obj, d)).expect("length checked");
+                    // C07: the translated image draws the same picture shifted by d ...
+                    let shifted: PMap = out.map0.iter().map(|((y, x), c)| ((y + d.y, x + d.x), *c)).collect();
+                    ctx.expect(out.map == shifted, "C07:image-translate-picture", || format!("{} got {} want {}", op, fmt_map(&out.map), fmt_map(&shifted)));
+                    // ... its bounding box shifts by d ...
+                    let want_bb = Rectangle::new(out.bb0.top_left + d, out.bb0.size);
+                    ctx.expect(out.bb == want_bb, "C07:image-translate-bounding-box", || format!("{} bb {:?} want {:?}", op, out.bb, want_bb));
+                    // ... and translate_mut leaves the value translate returns
+                    ctx.expect(out.same_as_mut, "C07:image-translate-mut", || op.to_string());
+                    format!("bb={} mut={} r1={}", fmt_rect(&out.bb), if out.same_as_mut { 1 } else { 0 }, fmt_map(&out.map))
+                }
+            }
+            _ => panic!("unknown op {}", op),
+        }
     }
 }
